@@ -29,11 +29,16 @@ CONSTANTS U,          \* universe of hashes <<hi, lo>>
           Queries,    \* BOOLEAN: look-ups are operations of the history
           RszArgs,    \* arguments tried for resize (0 = None/double)
           MergeOps,   \* set of <<T, q2>>: second operand of a merge (set held, its quotient size)
+          AutoSet,    \* values the auto_expand setter is called with ({} = the setter is not an operation of this instance)
+          LFs,        \* values <<n, d>> (= n/d) the max_load_factor setter is called with ({} likewise)
           NPARTS, PART,  \* emission partition
           EmitLayout     \* FALSE for the large quotient sizes (2^16, 2^24 slots): the slot table is not materialised there
 
-VARIABLES S, q, cnt, auto, c0, hist, last
-vars == <<S, q, cnt, auto, c0, hist, last>>
+VARIABLES S, q, cnt, auto, lf, c0, hist, last
+vars == <<S, q, cnt, auto, lf, c0, hist, last>>
+   \* lf = <<n, d>>: the maximum load factor n/d at which an add with auto_expand grows the table first. Every (re)build of the table
+   \* - a manual resize and the automatic one alike - puts the default back (the implementation re-initialises its parameters there)
+DefLF == <<85, 100>>
 
 RECURSIVE Pow2(_)
 Pow2(k) == IF k = 0 THEN 1 ELSE 2 * Pow2(k - 1)
@@ -141,16 +146,18 @@ DecodedHashes(T, qq) == LET d == DecodeSeq(Layout(T, qq), qq) IN [i \in 1..Len(d
 
 -----------------------------------------------------------------------------
 (* operations as functions on the abstract state *)
-St(s, qq, c) == [S |-> s, q |-> qq, cnt |-> c, err |-> FALSE]
+St(s, qq, c, l) == [S |-> s, q |-> qq, cnt |-> c, lf |-> l, err |-> FALSE]
 Err(st) == [st EXCEPT !.err = TRUE]
 
-NeedGrow(a, qq, c) == a /\ 100 * c >= 85 * Size(qq)      \* checked before the presence test
+NeedGrow(a, l, qq, c) == a /\ l[2] * c >= l[1] * Size(qq)      \* load factor >= maximum; checked before the presence test
 
 AddStep(st, a, h) ==
-  LET g == IF NeedGrow(a, st.q, st.cnt) THEN st.q + 1 ELSE st.q IN
-  IF h \in st.S THEN [st EXCEPT !.q = g]
+  LET grow == NeedGrow(a, st.lf, st.q, st.cnt)
+      g == IF grow THEN st.q + 1 ELSE st.q
+      l == IF grow THEN DefLF ELSE st.lf IN       \* at most half full after doubling: the re-insertion never grows again
+  IF h \in st.S THEN [st EXCEPT !.q = g, !.lf = l]
   ELSE IF st.cnt = Size(g) THEN Err(st)
-  ELSE [st EXCEPT !.S = @ \cup {h}, !.q = g, !.cnt = @ + 1]
+  ELSE [st EXCEPT !.S = @ \cup {h}, !.q = g, !.cnt = @ + 1, !.lf = l]
 
 RemStep(st, h) == IF h \in st.S THEN [st EXCEPT !.S = @ \ {h}, !.cnt = @ - 1] ELSE st
 
@@ -161,7 +168,7 @@ FinalQ(a, qq, n) ==      \* quotient size after re-adding n hashes into a fresh 
 RszStep(st, a, arg) ==
   LET nq == IF arg = 0 THEN st.q + 1 ELSE arg IN
   IF st.cnt >= Size(nq) \/ nq < 3 \/ nq > 31 THEN Err(st)
-  ELSE [st EXCEPT !.q = FinalQ(a, nq, st.cnt)]
+  ELSE [st EXCEPT !.q = FinalQ(a, nq, st.cnt), !.lf = DefLF]
 
 RECURSIVE FoldAdd(_, _, _, _)
 FoldAdd(st, a, hs, i) ==
@@ -174,7 +181,9 @@ Step(st, a, o) ==
     [] o[1] = "rem" -> RemStep(st, o[2])
     [] o[1] = "rsz" -> RszStep(st, a, o[2])
     [] o[1] = "mrg" -> MrgStep(st, a, o[4])
-    [] o[1] = "chk" -> [S |-> st.S, q |-> st.q, cnt |-> st.cnt, err |-> FALSE]      \* a look-up changes nothing (C19)
+    [] o[1] = "chk" -> st      \* a look-up changes nothing (C19)
+    [] o[1] = "auto" -> st     \* the auto_expand setter (the flag itself is the variable auto, see Do)
+    [] o[1] = "lf" -> [st EXCEPT !.lf = <<o[2], o[3]>>]
 
 (* a merge carries the second filter's set, its quotient size and (derived once) the order in which
    its hashes() generator yields them, which is the order merge() adds them in *)
@@ -183,26 +192,28 @@ MergeOpSet == {<<"mrg", m[1], m[2], DecodedHashes(m[1], m[2])>> : m \in MergeOps
 Ops == {<<"add", h>> : h \in U} \cup {<<"rem", h>> : h \in U}
        \cup {<<"rsz", x>> : x \in RszArgs} \cup MergeOpSet
        \cup (IF Queries THEN {<<"chk", h>> : h \in U} ELSE {})
+       \cup {<<"auto", b>> : b \in AutoSet} \cup {<<"lf", l[1], l[2]>> : l \in LFs}
           \* look-ups as operations of the history (with ViewH): the code may keep state across them (a memo of the last slot found)
 
 Init == /\ q \in Q0s /\ auto \in Autos
-        /\ S = {} /\ cnt = 0
+        /\ S = {} /\ cnt = 0 /\ lf = DefLF
         /\ c0 = [q |-> q, auto |-> auto]
         /\ hist = <<>> /\ last = <<"init">>
 
-Do(o) == LET r == Step(St(S, q, cnt), auto, o) IN
+Do(o) == LET r == Step(St(S, q, cnt, lf), auto, o) IN
          /\ r.q <= MaxQ             \* growth beyond the modelled sizes is outside this instance
          /\ last' = <<o, r.err>>
-         /\ UNCHANGED <<auto, c0>>
-         /\ IF r.err THEN UNCHANGED <<S, q, cnt, hist>>
-            ELSE /\ S' = r.S /\ q' = r.q /\ cnt' = r.cnt
+         /\ auto' = (IF o[1] = "auto" THEN o[2] = "T" ELSE auto)
+         /\ UNCHANGED c0
+         /\ IF r.err THEN UNCHANGED <<S, q, cnt, lf, hist>>
+            ELSE /\ S' = r.S /\ q' = r.q /\ cnt' = r.cnt /\ lf' = r.lf
                  /\ hist' = Append(hist, o)
 
 Next == \E o \in Ops : Do(o)
 Spec == Init /\ [][Next]_vars
 
-View == <<S, q, cnt, auto, c0>>
-ViewH == <<S, q, cnt, auto, c0, hist>>          \* enumerate histories (see CountMin.tla)
+View == <<S, q, cnt, auto, lf, c0>>
+ViewH == <<S, q, cnt, auto, lf, c0, hist>>          \* enumerate histories (see CountMin.tla)
 Bound == Cardinality(S) <= MaxEl /\ Len(hist) <= MaxDepth
 
 -----------------------------------------------------------------------------
@@ -217,7 +228,8 @@ LookupExact ==                                                        \* C04: me
 DecodeExact ==                                                        \* C04: hashes() lists exactly S, once each
   LET d == DecodedHashes(S, q) IN Len(d) = Cardinality(S) /\ {d[i] : i \in 1..Len(d)} = S
 
-AutoKeepsRoom == auto => (S = {} \/ 100 * (cnt - 1) < 85 * Size(q))   \* auto_expand never lets the table fill
+AutoKeepsRoom == (auto /\ AutoSet = {} /\ LFs = {}) => (S = {} \/ 100 * (cnt - 1) < 85 * Size(q))   \* auto_expand (never switched, default load factor) never lets the table fill
+RebuildResetsLF == [][ (q' # q) => lf' = DefLF ]_vars
 
 SetSemantics == [][ LET o == last'[1] IN
                     /\ (last'[2] => UNCHANGED <<S, q, cnt>>)
@@ -238,6 +250,6 @@ LaySeq(T, qq) == LET L == Layout(T, qq) N == Size(qq) IN
 FirstOp == <<"add", CHOOSE h \in U : TRUE>>
 
 Emit == Mine => PrintT(ToJson([c |-> c0, h |-> hist, a |-> last'[1],
-                  e |-> [S |-> S', q |-> q', cnt |-> cnt', err |-> last'[2]],
+                  e |-> [S |-> S', q |-> q', cnt |-> cnt', err |-> last'[2], auto |-> auto', lf |-> lf'],
                   lay |-> IF EmitLayout /\ last'[1] = FirstOp THEN LaySeq(S, q) ELSE <<>>]))
 =============================================================================
